@@ -97,7 +97,7 @@ KNDS = (1, 0, 5, 20000, 30000, 65535, 4294967296, -1)
 
 @obligation(funcs=["storage.kv.LMDBStorage.add_event", "storage.kv.WriterThread.run", "storage.kv.encode_event",
                    "storage.kv.Index.write"],
-            timeout=(280, 1200), params=range(3),
+            timeout=(450, 1500), params=range(3),
             bounds="PARAM 2: the same event submitted twice BEFORE the writer thread ran; PARAM 0: fresh event with created_at from {1, 1.7e9, 2^32-1, 2^32, 2^64, -1}, kind from {1,0,5,20000,30000,"
                    "65535,2^32,-1}, <=1 tag from the 10 general shapes, by symbolic selectors (the validator stub accepts: these "
                    "values pass is_signed); PARAM 1: the same event submitted twice")
